@@ -30,7 +30,7 @@ Definition lzsplit_init : lzsplit := mkLzsplit [] [] 0 false.
 
 Definition ls_should_finish (ms : option Z) (s : lzsplit) : bool :=
   match ms with Some m => m <=? ls_size s | None => false end.
-Definition ls_close (s : lzsplit) : lzsplit := mkLzsplit (rev (ls_cur s) :: ls_done s) [] (ls_size s) false.
+Definition ls_close (s : lzsplit) : lzsplit := mkLzsplit (frev (ls_cur s) :: ls_done s) [] (ls_size s) false.
 Definition ls_start (s : lzsplit) : lzsplit := mkLzsplit (ls_done s) [] 0 true.
 Definition ls_push (s : lzsplit) (buf : list Z) : lzsplit :=
   mkLzsplit (ls_done s) (rev_append buf (ls_cur s)) (ls_size s + zlen buf) (ls_open s).
@@ -67,7 +67,7 @@ Fixpoint lz_write_calls (ms : option Z) (s : lzsplit) (parts : list (list Z)) : 
 Definition lz_members_of (ms : option Z) (parts : list (list Z)) : outcome (list (list Z)) :=
   do s <- lz_write_calls ms lzsplit_init parts;
   let s1 := if ls_open s then s else ls_start s in
-  Ok (rev (rev (ls_cur s1) :: ls_done s1)).
+  Ok (frev (frev (ls_cur s1) :: ls_done s1)).
 
 (* one member: header, LZMA payload (with end marker), trailer *)
 Definition lz_member (dict_byte : Z) (content payload : list Z) : list Z :=
@@ -207,7 +207,7 @@ Fixpoint lzr_read_loop (fuel : nat) (fx : lzfix) (s : lzr) (buflen : Z) : outcom
           | [] =>
               (* finish_current_member *)
               let src := lzma1_unconsumed lz1 in
-              let content := rev (mb_content mb) in
+              let content := frev (mb_content mb) in
               do r1 <- lz_check_trailer (crc32 content) (zlen content) (mb_avail mb - zlen src) src;
               do st <- lzr_start_member fx (mkLzr r1 None (z_seen s) false);
               let '(started, s1) := st in
@@ -242,9 +242,9 @@ Fixpoint lzr_read_all (fuel : nat) (fx : lzfix) (s : lzr) (sizes all : list Z) (
       let '(sz, rest) := match sizes with [] => (4096, all) | x :: r => (x, r) end in
       match lzr_read fx s sz with
       | Ok (out, s1) =>
-          if (0 <? sz) && (zlen out =? 0) then Ok (rev acc, 0, s1)
+          if (0 <? sz) && (zlen out =? 0) then Ok (frev acc, 0, s1)
           else lzr_read_all f fx s1 (match rest with [] => all | _ => rest end) all (rev_append out acc)
-      | Err e => Ok (rev acc, e, s)
+      | Err e => Ok (frev acc, e, s)
       | Panic e => Panic e
       | Fuel => Fuel
       end
@@ -264,7 +264,7 @@ Section WholeFile.
         do hr <- lz_parse_header fx first src;
         let '(h, r1) := hr in
         match h with
-        | None => Ok (rev acc, r1)
+        | None => Ok (frev acc, r1)
         | Some ds =>
             do pr <- pdec ds r1;
             let '(content, r2) := pr in
@@ -285,20 +285,26 @@ Fixpoint lzma1_drain (fuel : nat) (s : lzma1) (acc : list Z) : outcome (list Z *
       do r <- lzma1_read s 4096;
       let '(out, s1) := r in
       match out with
-      | [] => Ok (rev acc, lzma1_unconsumed s1)
+      | [] => Ok (frev acc, lzma1_unconsumed s1)
       | _ => lzma1_drain f s1 (rev_append out acc)
       end
   end.
+
+Definition lzip_payload_dec_n (calls : nat) (dict : Z) (src : list Z) : outcome (list Z * list Z) :=
+  do s <- lzma1_construct2 src U64_MAX 3 0 2 dict None;
+  lzma1_drain calls s [].
 
 (* fuel: LZMA expands by at most a few thousand (a 273-byte match costs a fraction of a bit once
    the probabilities have adapted), i.e. a few 4096-byte calls per source byte; running out of it
    is reported as Fuel and no theorem depends on this constant *)
 Definition lzip_payload_dec (dict : Z) (src : list Z) : outcome (list Z * list Z) :=
-  do s <- lzma1_construct2 src U64_MAX 3 0 2 dict None;
-  lzma1_drain (64 + 16 * length src) s [].
+  lzip_payload_dec_n (64 + 16 * length src) dict src.
 
 Definition lz_decode_c (fx : lzfix) (src : list Z) : outcome (list Z * list Z) :=
   lz_decode lzip_payload_dec fx src.
+
+Definition lz_decode_capped (fx : lzfix) (cap : Z) (src : list Z) : outcome (list Z * list Z) :=
+  lz_decode (lzip_payload_dec_n (Z.to_nat (cap / 4096 + 3))) fx src.
 
 (* entry points for the driver *)
 Definition lz_write_entry (dict : Z) (ms : option Z) (parts payloads : list (list Z)) : outcome (list Z) :=
